@@ -68,4 +68,27 @@ var Table = []Entry{
 	{"domains.PackageDomainAtDepth", true, true, false, func(d int, tr *[]Frame) R { r := R{Dom: domains.PackageDomainAtDepth(d)}; *tr = append(*tr, Here()); return r }},
 	{"domains.New", false, true, false, func(d int, tr *[]Frame) R { e := domains.New("x"); r := R{Err: e, Dom: errors.GetDomain(e)}; *tr = append(*tr, Here()); return r }},
 	{"domains.Handled", false, true, false, func(d int, tr *[]Frame) R { e := domains.Handled(leaf); r := R{Err: e, Dom: errors.GetDomain(e)}; *tr = append(*tr, Here()); return r }},
+	// ---- argument-value variants: the same functions on their other code paths
+	{"errors.New(empty)", false, false, true, func(d int, tr *[]Frame) R { r := R{Err: errors.New("")}; *tr = append(*tr, Here()); return r }},
+	{"errors.Newf(error-arg)", false, false, true, func(d int, tr *[]Frame) R { r := R{Err: errors.Newf("x %v", leaf)}; *tr = append(*tr, Here()); return r }},
+	{"errors.NewWithDepthf(%w)", true, false, true, func(d int, tr *[]Frame) R { r := R{Err: errors.NewWithDepthf(d, "x %w", leaf)}; *tr = append(*tr, Here()); return r }},
+	{"errors.NewWithDepthf(error-arg)", true, false, true, func(d int, tr *[]Frame) R { r := R{Err: errors.NewWithDepthf(d, "x %v", leaf)}; *tr = append(*tr, Here()); return r }},
+	{"errors.Wrap(empty)", false, false, true, func(d int, tr *[]Frame) R { r := R{Err: errors.Wrap(leaf, "")}; *tr = append(*tr, Here()); return r }},
+	{"errors.WrapWithDepth(empty)", true, false, true, func(d int, tr *[]Frame) R { r := R{Err: errors.WrapWithDepth(d, leaf, "")}; *tr = append(*tr, Here()); return r }},
+	{"errors.Wrapf(empty)", false, false, true, func(d int, tr *[]Frame) R { r := R{Err: errors.Wrapf(leaf, "")}; *tr = append(*tr, Here()); return r }},
+	{"errors.WrapWithDepthf(empty)", true, false, true, func(d int, tr *[]Frame) R { r := R{Err: errors.WrapWithDepthf(d, leaf, "")}; *tr = append(*tr, Here()); return r }},
+	{"errors.WrapWithDepthf(error-arg)", true, false, true, func(d int, tr *[]Frame) R { r := R{Err: errors.WrapWithDepthf(d, leaf, "x %v", leaf)}; *tr = append(*tr, Here()); return r }},
+	{"errors.Wrapf(args-only)", false, false, true, func(d int, tr *[]Frame) R { r := R{Err: errors.Wrapf(leaf, "", 1)}; *tr = append(*tr, Here()); return r }},
+	{"errors.AssertionFailedWithDepthf(error-arg)", true, false, true, func(d int, tr *[]Frame) R { r := R{Err: errors.AssertionFailedWithDepthf(d, "x %v", leaf)}; *tr = append(*tr, Here()); return r }},
+	{"errors.NewAssertionErrorWithWrappedErrf(empty)", false, false, true, func(d int, tr *[]Frame) R { r := R{Err: errors.NewAssertionErrorWithWrappedErrf(leaf, "")}; *tr = append(*tr, Here()); return r }},
+	{"errors.HandleAsAssertionFailureDepth(assertion)", true, false, true, func(d int, tr *[]Frame) R { r := R{Err: errors.HandleAsAssertionFailureDepth(d, errors.WithAssertionFailure(leaf))}; *tr = append(*tr, Here()); return r }},
+	{"errors.JoinWithDepth(nil-args)", true, false, true, func(d int, tr *[]Frame) R { r := R{Err: errors.JoinWithDepth(d, nil, leaf, nil)}; *tr = append(*tr, Here()); return r }},
+	{"errors.JoinWithDepth(one)", true, false, true, func(d int, tr *[]Frame) R { r := R{Err: errors.JoinWithDepth(d, leaf)}; *tr = append(*tr, Here()); return r }},
+	{"errors.WithStackDepth(stacked)", true, false, true, func(d int, tr *[]Frame) R { r := R{Err: errors.WithStackDepth(errors.WithHint(leaf, "h"), d)}; *tr = append(*tr, Here()); return r }},
+	{"errutil.Wrap(empty)", false, false, true, func(d int, tr *[]Frame) R { r := R{Err: errutil.Wrap(leaf, "")}; *tr = append(*tr, Here()); return r }},
+	{"errutil.WrapWithDepth(empty)", true, false, true, func(d int, tr *[]Frame) R { r := R{Err: errutil.WrapWithDepth(d, leaf, "")}; *tr = append(*tr, Here()); return r }},
+	{"errutil.WrapWithDepthf(empty)", true, false, true, func(d int, tr *[]Frame) R { r := R{Err: errutil.WrapWithDepthf(d, leaf, "")}; *tr = append(*tr, Here()); return r }},
+	{"errutil.NewWithDepthf(%w)", true, false, true, func(d int, tr *[]Frame) R { r := R{Err: errutil.NewWithDepthf(d, "x %w", leaf)}; *tr = append(*tr, Here()); return r }},
+	{"errutil.NewAssertionErrorWithWrappedErrDepthf(empty)", true, false, true, func(d int, tr *[]Frame) R { r := R{Err: errutil.NewAssertionErrorWithWrappedErrDepthf(d, leaf, "")}; *tr = append(*tr, Here()); return r }},
+	{"domains.PackageDomainAtDepth(twice)", true, true, false, func(d int, tr *[]Frame) R { _ = domains.PackageDomainAtDepth(d); r := R{Dom: domains.PackageDomainAtDepth(d)}; *tr = append(*tr, Here()); return r }},
 }
